@@ -44,6 +44,18 @@ pub struct Case {
     pub withdrawals: Vec<usize>,
     /// source order of the input blocks in the `inputs` vector vs names: names[i] of block i
     pub with_redeemerless_input: bool,
+    /// mint and burn blocks of one policy name one asset in one quantity: a mint and a burn cancel
+    #[serde(default)]
+    pub cancelling: bool,
+}
+
+/// reward accounts whose order by bare credential (script 10.., key 50.., key 90..) is not their order as accounts
+/// (header byte first: key e0 50.., key e0 90.., script f0 10..)
+fn reward_account(w: usize) -> Vec<u8> {
+    let (header, fill) = [(0xe0u8, 0x90u8), (0xf0, 0x10), (0xe0, 0x50)][w % 3];
+    let mut v = vec![header];
+    v.extend([fill; 28]);
+    v
 }
 
 fn ref_of(p: usize) -> tx3_tir::model::core::UtxoRef {
@@ -80,7 +92,11 @@ fn build(case: &Case) -> tir::Tx {
     }
     for (k, (is_burn, p, red)) in case.mints.iter().enumerate() {
         let m = tir::Mint {
-            amount: tirb::assets(vec![tirb::token(&policy(*p), format!("T{k}").as_bytes(), if *is_burn { 2 } else { 5 })]),
+            amount: if case.cancelling {
+                tirb::assets(vec![tirb::token(&policy(*p), b"T", 5)])
+            } else {
+                tirb::assets(vec![tirb::token(&policy(*p), format!("T{k}").as_bytes(), if *is_burn { 2 } else { 5 })])
+            },
             redeemer: if *red { tir::Expression::Number(200 + *p as i128) } else { tir::Expression::None },
         };
         if *is_burn {
@@ -93,7 +109,7 @@ fn build(case: &Case) -> tir::Tx {
         tx.adhoc.push(tir::AdHocDirective {
             name: "withdrawal".into(),
             data: std::collections::HashMap::from([
-                ("credential".to_string(), tir::Expression::Address(stake_address(*w as u8 * 40 + 3, 0))),
+                ("credential".to_string(), tir::Expression::Address(reward_account(*w))),
                 ("amount".to_string(), tir::Expression::Number(10 + *w as i128)),
                 ("redeemer".to_string(), tir::Expression::Number(300 + *w as i128)),
             ]),
@@ -128,7 +144,7 @@ fn expected(case: &Case) -> BTreeMap<(u64, u64), i128> {
         }
     }
     // mint: distinct policies sorted bytewise
-    let mut pols: Vec<usize> = case.mints.iter().map(|(_, p, _)| *p).collect();
+    let mut pols: Vec<usize> = case.mints.iter().map(|(_, p, _)| *p).filter(|p| !cancelled(case, *p)).collect();
     pols.sort_by_key(|p| policy(*p));
     pols.dedup();
     for (i, p) in pols.iter().enumerate() {
@@ -139,12 +155,17 @@ fn expected(case: &Case) -> BTreeMap<(u64, u64), i128> {
     }
     // reward: accounts sorted bytewise
     let mut ws: Vec<usize> = case.withdrawals.clone();
-    ws.sort_by_key(|w| stake_address(*w as u8 * 40 + 3, 0));
+    ws.sort_by_key(|w| reward_account(*w));
     ws.dedup();
     for (i, w) in ws.iter().enumerate() {
         out.insert((3, i as u64), 300 + *w as i128);
     }
     out
+}
+
+/// the policy's blocks sum to nothing: it does not appear in the body, so a redeemer written for it guards no item
+fn cancelled(case: &Case, p: usize) -> bool {
+    case.cancelling && case.mints.iter().filter(|(_, q, _)| *q == p).map(|(burn, _, _)| if *burn { -5i64 } else { 5 }).sum::<i64>() == 0
 }
 
 fn tag_name(t: u64) -> &'static str {
@@ -166,6 +187,11 @@ fn judge(case: &Case, o: &mut Outcome) {
         Err(p) => {
             o.class("compile-panic");
             o.violate(Violation::new(format!("compile-{}", p.signature()), format!("compile panicked: {}", p.message)));
+            return;
+        }
+        Ok(Err(_)) if case.mints.iter().any(|(_, p, red)| *red && cancelled(case, *p)) => {
+            // a redeemer written for a policy that cancels out has no item to attach to: refusing is legitimate
+            o.class("refused-redeemer-for-cancelled-policy");
             return;
         }
         Ok(Err(e)) => {
@@ -339,7 +365,7 @@ impl Prop for C08 {
         format!(
             "constant TIRs compiled directly: all injective assignments of a 5-ref pool (txid order != index order) to 1..4 script inputs of 1 or 2 \
              UTxOs (both iteration orders of every 2-UTxO set), all sequences of 0..3 mints/burns over 3 policies each with or without a redeemer, all sequences of 0..2 withdrawals \
-             over 3 reward accounts, with / without an extra redeemer-less input; {}. Oracle: decoded witness-set map (tag, index) -> data = map built \
+             over 3 reward accounts (key and script headers, ordered differently by bare credential), sequences that mint and burn one policy also with both sides cancelling, with / without an extra redeemer-less input; {}. Oracle: decoded witness-set map (tag, index) -> data = map built \
              from the source items sorted as the ledger sorts (inputs by (txid, index), policies and reward accounts bytewise). Non-trivial = compiled \
              and decoded; distinct = distinct case descriptions.",
             if tier.is_thorough() { "full product of the three axes" } else { "each axis complete against a few fixed configurations of the other two" }
@@ -369,8 +395,13 @@ impl Prop for C08 {
                 for (bit, b) in doubles.iter().enumerate() {
                     ranks[*b] = (c >> bit) & 1;
                 }
-                let case = Case { inputs: inputs.clone(), set_ranks: ranks, mints: m.clone(), withdrawals: w.clone(), with_redeemerless_input: plain };
+                let case = Case { inputs: inputs.clone(), set_ranks: ranks, mints: m.clone(), withdrawals: w.clone(), with_redeemerless_input: plain, cancelling: false };
                 sink.case(|| json!({"kind": "redeemers", "case": case}));
+                // the same blocks naming one asset in one quantity, when a policy is both minted and burned
+                if c == 0 && m.iter().any(|(b, p, _)| *b && m.iter().any(|(b2, p2, _)| !*b2 && p2 == p)) {
+                    let case = Case { cancelling: true, ..case };
+                    sink.case(|| json!({"kind": "redeemers", "case": case}));
+                }
             }
         };
         let _ = factorial(1);
